@@ -133,10 +133,10 @@ def gen_mufid(rng, tier):
     npos, c = npos_c(case)
     dim = npos * c
     n = rng.choice([1, 2, 2, 3, 3, 4])
-    nb = rng.choice([1, 2, 3, 4, 5, 6, 7, 8, 9, 10, 12])
+    nb = rng.choice([1, 2, 3, 4, 5, 6, 7, 8, 9, 10, 12] if rng.random() < 0.5 else [4, 5, 6, 7, 8, 9, 10, 12])
     case["nb"] = nb
     case["grid"] = rng.choice([None, None, 1, 2, 3, 5, 9])
-    case["pct"] = rng.choice([0.2, 0.4, 0.5, 0.5, 0.7, 0.3, 0.0, 1.0] if rng.random() < 0.9 else [0.5])
+    case["pct"] = rng.choice([0.0, 1.0] if rng.random() < 0.08 else [0.2, 0.4, 0.5, 0.5, 0.7, 0.3, 0.6])
     case["baseline"] = dict(const=rng.choice([0.0, 0.0, 0.5, -1.0, 1.25])) if rng.random() < 0.6 else \
         dict(fun=rng.choice(sorted(BASE_FUNS)))
     a, b = baseline_ab(case)
@@ -229,7 +229,7 @@ def gen_stab(rng, tier):
 
 def generate(rng, tier):
     big = tier == "thorough"
-    nm, ns, nt = (70, 25, 35) if not big else (900, 200, 300)
+    nm, ns, nt = (85, 25, 40) if not big else (900, 200, 300)
     return ([gen_mufid(rng, tier) for _ in range(nm)] + [gen_spearman(rng, tier) for _ in range(ns)] +
             [gen_stab(rng, tier) for _ in range(nt)])
 
@@ -268,6 +268,21 @@ def distribution(cases):
 
 
 # ----------------------------------------------------------------------------------------------- implementation: mufid
+def grid_cells(case):
+    """position -> grid cell of TF's nearest-neighbour resize (index min(((2i+1)g)//(2H), g-1)); None for tabular data"""
+    sh = case["shape"]
+    if case["kind"] == "tab":
+        return None
+    g = case["grid"] or sh[0]
+    h, w = sh[0], sh[1]
+    rows = [min(((2 * i + 1) * g) // (2 * h), g - 1) for i in range(h)]
+    if case["kind"] == "ts":
+        cols = list(range(w))
+    else:
+        cols = [min(((2 * j + 1) * g) // (2 * w), g - 1) for j in range(w)]
+    return [(rows[i], cols[j]) for i in range(h) for j in range(w)]
+
+
 def make_baseline(case):
     import tensorflow as tf
     b = case["baseline"]
@@ -364,6 +379,34 @@ def run_mufid(case):
             mi.append([bool(v) for v in mm[:, 0]])
         out_masks.append(mi)
     res["masks"] = out_masks
+    # the subsets are unions of grid cells (nearest-neighbour upsampling of a grid_size x grid_size / grid_size x W draw)
+    cells = grid_cells(case)
+    if cells is not None:
+        for i, mi in enumerate(out_masks):
+            for m in mi:
+                seen = {}
+                for p, v in enumerate(m):
+                    if seen.setdefault(cells[p], v) != v:
+                        problems.append(f"input {i}: a subset cuts through a grid cell (grid_size={case['grid']})")
+                        break
+    # additive score + exact attributions: every per-sample correlation is +1 (-1 for the negation), or 0 when the
+    # drops of a sample are all tied -> n * metric is an integer of the right sign (checked without the model)
+    if case["phi_kind"] in ("exact", "scaled_exact", "neg_exact") and math.isfinite(value):
+        sign = -1.0 if case["phi_kind"] == "neg_exact" else 1.0
+        k = sign * value * n
+        if abs(k - round(k)) > 1e-6 * n or round(k) < 0 or round(k) > n:
+            problems.append(f"additive score with exact attributions ({case['phi_kind']}): metric {value!r} is not a mean of "
+                            f"{sign:+.0f} / 0 correlations")
+        _seen["additive_cases"] += 1
+        if abs(value - sign) <= 1e-6:
+            _seen["additive_plus1" if sign > 0 else "additive_minus1"] += 1
+    if case["model_kind"] == "const":
+        _seen["const_zero"] += int(value == 0.0)
+    EXTRA_COVERAGE["mufid_direct"] = dict(
+        note="implementation-side facts checked without the model: additive score + exact attributions give a mean of "
+             "+1/-1/0 correlations (1e-6); counts of cases where the metric was exactly +1 / -1; constant scores give 0; "
+             "queries compatible with several inputs (everything at a shared baseline) are distributed by count",
+        **{k: v for k, v in _seen.items() if k != "worst_rel_err"})
     return res
 
 
@@ -498,6 +541,12 @@ def run_stab(case):
             problems.append(f"input {i}: no neighbours were explained")
             nbrs[i] = []
     res["neighbors"] = nbrs
+    if case["explainer"] in ("const", "const_t") and case["base"] != "random":
+        if value != 0.0:
+            problems.append(f"explainer ignoring its input scored {value!r}, expected exactly 0")
+        _seen["stab_zero_cases"] += 1
+        EXTRA_COVERAGE["stab_direct"] = dict(note="explainers that ignore their input must score exactly 0 (checked without the model)",
+                                            cases=_seen["stab_zero_cases"])
     if base is not None:
         res["base"] = [[float(v) for v in np.asarray(e, dtype=np.float64).reshape(-1)] for e in base]
     return res
